@@ -1,9 +1,156 @@
-(* C13 - placeholder while the proofs are being built *)
-From Coq Require Import String List Bool Arith ZArith.
+(* C13 - Joining patches partitions their faces and mirrors the logical domain.
+   Property theorems only: each is closed by [exact] of a lemma of Proofs/TopologyP.v
+   and followed by Print Assumptions.  The model is Model/TopologyM.v. *)
+From Coq Require Import String List Bool Arith ZArith Sorted.
 From V Require Import Core.Canon Model.TopologyM Proofs.TopologyP.
 Import ListNotations.
 Open Scope string_scope.
 
-Example C13_placeholder : no_bar "A" = true.
-Proof. reflexivity. Qed.
-Print Assumptions C13_placeholder.
+(* Every face of every patch is in the external boundary and in no interface, or it is not in the
+   boundary and is exactly one side of exactly one interface.  For connection lists of any length;
+   hypotheses: the faces of the family are told apart by == and str (fwf), the joined faces are
+   pairwise distinct, patch names contain no '|', and no more than two connections join the same
+   two patches (one for a patch with itself). *)
+Theorem C13_face_partition : forall ps cs nm D rl,
+  2 <= length ps -> join ps cs nm = Ok D -> resolve_all ps cs = Ok rl ->
+  fwf (all_faces ps ++ joined_faces rl) -> NoDup (joined_faces rl) ->
+  rl_no_bar rl -> pair_bound rl ->
+  forall f, In f (all_faces ps) ->
+    (In f (d_boundary D) /\ forall i, In i (d_conn D) -> f <> i_minus i /\ f <> i_plus i)
+    \/ (~ In f (d_boundary D) /\
+        exists i, In i (d_conn D) /\ side_of f i /\
+                  forall j, In j (d_conn D) -> (f = i_minus j \/ f = i_plus j) -> j = i).
+Proof. exact join_face_partition. Qed.
+Print Assumptions C13_face_partition.
+
+(* ... and the statement is false without the bound on connections per patch pair: the third
+   connection between two patches overwrites a dictionary entry (Domain.join: interfaces[name] = ...) *)
+Theorem C13_face_partition_refuted :
+  exists ps cs nm D rl f,
+    join ps cs nm = Ok D /\ resolve_all ps cs = Ok rl /\ 2 <= length ps /\
+    fwf (all_faces ps ++ joined_faces rl) /\ NoDup (joined_faces rl) /\ rl_no_bar rl /\
+    In f (all_faces ps) /\ ~ In f (d_boundary D) /\
+    forall i, In i (d_conn D) -> f <> i_minus i /\ f <> i_plus i.
+Proof. exact join_partition_refuted. Qed.
+Print Assumptions C13_face_partition_refuted.
+
+(* the connections of a successful join always resolve to faces *)
+Theorem C13_join_resolves : forall ps cs nm D,
+  2 <= length ps -> join ps cs nm = Ok D -> exists rl, resolve_all ps cs = Ok rl.
+Proof. exact join_resolves. Qed.
+Print Assumptions C13_join_resolves.
+
+(* each declared connection is one interface, in order: the declared faces (minus/plus exchanged only
+   by the name-clash rule), the declared orientation, the name minus|plus; names pairwise distinct *)
+Theorem C13_declared_connections : forall ps cs nm D rl,
+  2 <= length ps -> join ps cs nm = Ok D -> resolve_all ps cs = Ok rl ->
+  rl_no_bar rl -> pair_bound rl ->
+  Forall2 declared_as rl (d_conn D) /\ NoDup (map i_name (d_conn D)).
+Proof. exact join_declared. Qed.
+Print Assumptions C13_declared_connections.
+
+(* all patches are interiors: the interior of the join is the sorted duplicate-free list of the
+   interiors of the patches *)
+Theorem C13_interiors : forall ps cs nm D,
+  2 <= length ps -> join ps cs nm = Ok D -> pwf (flat_map d_interiors ps) ->
+  (forall p, In p (d_interiors D) <-> exists d, In d ps /\ In p (d_interiors d))
+  /\ NoDup (d_interiors D) /\ StronglySorted (kle pname) (d_interiors D).
+Proof. exact join_interiors. Qed.
+Print Assumptions C13_interiors.
+
+(* mapped patches: the logical domain has the same structure on the logical patches, face by face
+   (boundary = image of the boundary) and interface by interface (same order, sides, orientation) *)
+Theorem C13_logical_twin : forall ps cs nm D rl,
+  2 <= length ps -> join ps cs nm = Ok D -> resolve_all ps cs = Ok rl ->
+  rl_no_bar rl -> pair_bound rl ->
+  forallb is_mapped (d_interiors D) = true ->
+  (forall f g, In f (joined_faces rl) -> In g (joined_faces rl) ->
+               p_lname (f_patch f) = p_lname (f_patch g) -> pname (f_patch f) = pname (f_patch g)) ->
+  (forall f, In f (joined_faces rl) -> no_bar (p_lname (f_patch f)) = true) ->
+  fwf (map lface (d_boundary D)) -> pwf (map lpatch (d_interiors D)) ->
+  exists L, d_logical D = Some L /\ d_name L = nm /\ d_dim L = d_dim D
+    /\ d_logical L = None /\ d_mapping L = MNone
+    /\ d_conn L = map liface (d_conn D)
+    /\ (forall g, In g (d_boundary L) <-> exists f, In f (d_boundary D) /\ g = lface f)
+    /\ (forall q, In q (d_interiors L) <-> exists p, In p (d_interiors D) /\ q = lpatch p).
+Proof. exact join_twin. Qed.
+Print Assumptions C13_logical_twin.
+
+Theorem C13_logical_twin_one_to_one : forall (P : list patch) f g,
+  (forall p q, In p P -> In q P -> p_lname p = p_lname q -> p = q) ->
+  In (f_patch f) P -> In (f_patch g) P -> lface f = lface g -> f = g.
+Proof. exact lface_inj. Qed.
+Print Assumptions C13_logical_twin_one_to_one.
+
+Theorem C13_no_twin_when_unmapped : forall ps cs nm D,
+  2 <= length ps -> join ps cs nm = Ok D ->
+  forallb is_mapped (d_interiors D) = false -> d_logical D = None /\ d_mapping D = MNone.
+Proof. exact join_twin_unmapped. Qed.
+Print Assumptions C13_no_twin_when_unmapped.
+
+(* face lookup by (axis, side) *)
+Theorem C13_get_boundary_sound : forall d a e f,
+  get_boundary d a e = Ok f -> In f (d_boundary d) /\ f_axis f = a /\ f_ext f = e.
+Proof. exact get_boundary_ok. Qed.
+Print Assumptions C13_get_boundary_sound.
+
+Theorem C13_get_boundary_refusal : forall d a e er,
+  get_boundary d a e = Err er ->
+  er = EValue /\ forall f, In f (d_boundary d) -> ~ (f_axis f = a /\ f_ext f = e).
+Proof. exact get_boundary_err. Qed.
+Print Assumptions C13_get_boundary_refusal.
+
+(* on a patch: exactly the face (axis, ext), in every dimension; anything else is refused *)
+Theorem C13_get_boundary_patch : forall q d a e,
+  patch_like q d ->
+  (a < p_dim q /\ (e = 1%Z \/ e = (-1)%Z) -> get_boundary d a e = Ok (mkFace q a e)) /\
+  (~ (a < p_dim q /\ (e = 1%Z \/ e = (-1)%Z)) -> get_boundary d a e = Err EValue).
+Proof. exact get_boundary_patch. Qed.
+Print Assumptions C13_get_boundary_patch.
+
+Theorem C13_ncube_is_patch : forall p, patch_like p (ncube_domain p).
+Proof. exact ncube_patch_like. Qed.
+Print Assumptions C13_ncube_is_patch.
+
+Theorem C13_mapped_ncube_is_patch : forall m p,
+  p_map p = None ->
+  exists d, map_domain m (ncube_domain p) = Ok d /\ patch_like (map_patch m p) d
+            /\ d_interiors d = [map_patch m p] /\ d_logical d = Some (ncube_domain p)
+            /\ d_mapping d = MSingle m /\ d_conn d = [].
+Proof. exact mapped_patch_like. Qed.
+Print Assumptions C13_mapped_ncube_is_patch.
+
+(* the decidable form of the hypotheses, evaluated on every generated case by the check *)
+Theorem C13_hypotheses_decidable : forall ps cs,
+  wf_join_b ps cs = true ->
+  exists rl, resolve_all ps cs = Ok rl /\ 2 <= length ps /\
+             fwf (all_faces ps ++ joined_faces rl) /\ NoDup (joined_faces rl) /\ rl_no_bar rl /\
+             pwf (flat_map d_interiors ps).
+Proof. exact wf_join_b_sound. Qed.
+Print Assumptions C13_hypotheses_decidable.
+
+Theorem C13_pair_bound_decidable : forall ps cs rl,
+  pair_bound_b ps cs = true -> resolve_all ps cs = Ok rl -> pair_bound rl.
+Proof. exact pair_bound_b_sound. Qed.
+Print Assumptions C13_pair_bound_decidable.
+
+(* non-vacuity: a 2x2 grid of mapped squares with its four connections meets every hypothesis,
+   and the join succeeds *)
+Definition nv_patch (n m : string) : domain :=
+  match map_domain m (ncube_domain (mkPatch n None 2 ["0"; "0"] ["1"; "1"])) with
+  | Ok d => d | Err _ => ncube_domain (mkPatch n None 2 ["0"; "0"] ["1"; "1"]) end.
+Definition nv_ps : list domain := [nv_patch "A" "M1"; nv_patch "B" "M2"; nv_patch "C" "M3"; nv_patch "E" "M4"].
+Definition nv_cs : list conn :=
+  [ mkConn (mkSide (PIdx 0) 0 1) (mkSide (PIdx 1) 0 (-1)) (Some (O2 1));
+    mkConn (mkSide (PIdx 2) 0 1) (mkSide (PIdx 3) 0 (-1)) (Some (O2 (-1)));
+    mkConn (mkSide (PIdx 0) 1 1) (mkSide (PIdx 2) 1 (-1)) None;
+    mkConn (mkSide (PIdx 3) 1 (-1)) (mkSide (PIdx 1) 1 1) (Some (O2 (-1))) ].
+Example C13_nonvacuous :
+  wf_join_b nv_ps nv_cs = true /\ pair_bound_b nv_ps nv_cs = true /\
+  (exists D, join nv_ps nv_cs "Omega" = Ok D /\ length (d_conn D) = 4 /\ length (d_boundary D) = 8
+             /\ forallb is_mapped (d_interiors D) = true).
+Proof.
+  split; [vm_compute; reflexivity|]. split; [vm_compute; reflexivity|].
+  destruct (join nv_ps nv_cs "Omega") as [D|] eqn:E; [|vm_compute in E; discriminate].
+  exists D. split; [reflexivity|]. vm_compute in E. inversion E. vm_compute. auto.
+Qed.
